@@ -1958,6 +1958,47 @@ func init() {
 		}
 		return tuple{mkRV(et, x), true}
 	})
+	R("(reflect.Value).TryRecv", func(fr *frame, a []value) value {
+		e := fr.e
+		v := argRV(a[0])
+		e.mustKind(v, "reflect.Value.TryRecv", reflect.Chan)
+		et := rvType(v).Underlying().(*types.Chan).Elem()
+		ch := e.rvLoad(v).(*channel)
+		if ch == nil || !ch.recvReady() {
+			return tuple{e.zeroRV(), false}
+		}
+		x, ok := ch.take()
+		if !ok {
+			return tuple{mkRV(et, zero(et)), false}
+		}
+		return tuple{mkRV(et, x), true}
+	})
+	R("(reflect.Value).TrySend", func(fr *frame, a []value) value {
+		e := fr.e
+		v, x := argRV(a[0]), argRV(a[1])
+		e.mustKind(v, "reflect.Value.TrySend", reflect.Chan)
+		et := rvType(v).Underlying().(*types.Chan).Elem()
+		if !assignable(rvType(x), et) {
+			reflectPanic("reflect.Value.TrySend: value of type %s is not assignable to type %s", typeString(rvType(x)), typeString(et))
+		}
+		ch := e.rvLoad(v).(*channel)
+		if ch == nil {
+			return false
+		}
+		if ch.closed {
+			panic(targetPanic{iface{e.P.rtPlain, "send on closed channel"}})
+		}
+		if !ch.sendReady() {
+			return false
+		}
+		val := boxFor(rvType(x), et, e.rvLoad(x))
+		if ch.cap > 0 {
+			ch.buf = append(ch.buf, val)
+		} else {
+			ch.pending = append(ch.pending, &sendItem{v: val})
+		}
+		return true
+	})
 	R("(reflect.Value).Pointer", func(fr *frame, a []value) value {
 		e := fr.e
 		v := argRV(a[0])
